@@ -98,7 +98,7 @@ func VerifyFunction(ld *Loaded, cs *ContractSet, fn *ssa.Function, ct *Contract)
 	ex.topKey = key
 	ex.contract = ct
 	ex.props = ct.Props
-	ex.checkPanics = !ct.NoPanicCheck
+	ex.checkPanics = ct.Safety && !ct.NoPanicCheck
 	if len(fn.Blocks) == 0 {
 		res.Err = "function has no body: " + key
 		return res
@@ -276,6 +276,15 @@ func (ex *Exec) checkAssigns(fr *Frame, ct *Contract, final *State, pc Term) {
 	}
 	for _, k := range ks {
 		if strings.HasPrefix(k, "__") || allowed[k] {
+			continue
+		}
+		wild := false
+		for a := range allowed {
+			if strings.HasSuffix(a, "*") && strings.HasPrefix(k, strings.TrimSuffix(a, "*")) {
+				wild = true
+			}
+		}
+		if wild {
 			continue
 		}
 		cur := final.heap[k]
